@@ -84,9 +84,10 @@ def judge(ctx, mode, case, obs, storage, exp, o_rows, o_fin, exp_rows):
     return False
 
 
-def compare_cases(ctx, mode, cases_path, obs, profile):
+def compare_cases(ctx, cases_path, obs, profile):
     n = 0
     for i, case in enumerate(read_ndjson(cases_path)):
+        mode = case.get("mode", "?")
         o = obs.get(i)
         if o is None or "outcome" in o:
             ctx.violation("%s:%s:%s" % (mode, (o or {}).get("outcome"), (o or {}).get("loc", "")),
@@ -163,31 +164,18 @@ def run(ctx):
     q = ctx.quick
     profiles = ["dev"] if q else ["dev", "release"]
     bins = {p: ctx.build("gvh-cfiexec", p) for p in profiles}
-    base = {"MaxCie": 2, "MaxFde": 3, "MaxTotal": 4, "Alpha": '"core"', "Quick": "TRUE" if q else "FALSE"}
-
-    # design level: fast coders = Leb.tla / BV.tla, encoder/decoder agree
-    ctx.tlc("MCCfiExec", write_cfg("MCCfiExec_lemma_run", "InitL", "NextL", "InvL", base), timeout=600)
-
-    runs = []
-    if q:
-        runs.append(("prog", write_cfg("MCCfiExec_prog_run", "Init", "Next", "Inv", base)))
-        runs.append(("bytes", write_cfg("MCCfiExec_bytes_run", "InitB", "NextB", "InvB", dict(base, MaxFde=2))))
-    else:
-        runs.append(("prog", write_cfg("MCCfiExec_prog_run", "Init", "Next", "Inv", dict(base, MaxTotal=5))))
-        runs.append(("progslim", write_cfg("MCCfiExec_slim_run", "Init", "Next", "Inv",
-                                           dict(base, MaxFde=4, MaxTotal=6, Alpha='"slim"'))))
-        runs.append(("progwide", write_cfg("MCCfiExec_wide_run", "Init", "Next", "Inv",
-                                           dict(base, MaxCie=1, MaxFde=3, MaxTotal=3, Alpha='"wide"'))))
-        runs.append(("bytes", write_cfg("MCCfiExec_bytes_run", "InitB", "NextB", "InvB", dict(base, MaxFde=3))))
-    runs.append(("grid", write_cfg("MCCfiExec_grid_run", "InitG", "NextG", "InvG", base)))
-    runs.append(("deep", write_cfg("MCCfiExec_deep_run", "InitD", "NextD", "InvD", base)))
-    for mode, cfg in runs:
-        r = ctx.tlc("MCCfiExec", cfg, timeout=3000, cases_name=mode + "-cases")
+    consts = {"Plan": '"quick"' if q else '"thorough"', "MaxBytes": 2 if q else 3, "Quick": "TRUE" if q else "FALSE"}
+    # run 1: program models (core / slim / wide alphabets, see Plans in MCCfiExec.tla)
+    # run 2: lemmas (fast coders = Leb.tla / BV.tla, encoder = decoder) + bytes + grid + deep
+    runs = [("prog", write_cfg("MCCfiExec_prog_run", "Init", "Next", "Inv", consts)),
+            ("aux", write_cfg("MCCfiExec_aux_run", "InitX", "NextX", "InvX", consts))]
+    for name, cfg in runs:
+        r = ctx.tlc("MCCfiExec", cfg, timeout=7200, cases_name=name + "-cases")
         if r.ncases == 0:
             raise ToolError("no cases from %s" % cfg)
         for prof, b in bins.items():
-            obs = ctx.replay(b, r.cases_path, tag="%s-%s" % (mode, prof))
-            compare_cases(ctx, mode, r.cases_path, obs, prof)
+            obs = ctx.replay(b, r.cases_path, tag="%s-%s" % (name, prof))
+            compare_cases(ctx, r.cases_path, obs, prof)
 
     # V: random long programs on long-lived contexts + corpus FDEs
     n = 250 if q else 2500
